@@ -88,9 +88,18 @@ Engine/RepAbs.vos Engine/RepAbs.vok Engine/RepAbs.required_vos: Engine/RepAbs.v 
 Engine/RepProofs.vo Engine/RepProofs.glob Engine/RepProofs.v.beautified Engine/RepProofs.required_vo: Engine/RepProofs.v Engine/PositionRep.vo Engine/EncodingProofs.vo
 Engine/RepProofs.vio: Engine/RepProofs.v Engine/PositionRep.vio Engine/EncodingProofs.vio
 Engine/RepProofs.vos Engine/RepProofs.vok Engine/RepProofs.required_vos: Engine/RepProofs.v Engine/PositionRep.vos Engine/EncodingProofs.vos
+Engine/RepRefine.vo Engine/RepRefine.glob Engine/RepRefine.v.beautified Engine/RepRefine.required_vo: Engine/RepRefine.v Engine/PositionRep.vo Engine/EncodingProofs.vo Engine/RepProofs.vo Engine/RepRoundTrip.vo Engine/RepRoundTripNormal.vo Engine/RepAbs.vo Base/NIter.vo
+Engine/RepRefine.vio: Engine/RepRefine.v Engine/PositionRep.vio Engine/EncodingProofs.vio Engine/RepProofs.vio Engine/RepRoundTrip.vio Engine/RepRoundTripNormal.vio Engine/RepAbs.vio Base/NIter.vio
+Engine/RepRefine.vos Engine/RepRefine.vok Engine/RepRefine.required_vos: Engine/RepRefine.v Engine/PositionRep.vos Engine/EncodingProofs.vos Engine/RepProofs.vos Engine/RepRoundTrip.vos Engine/RepRoundTripNormal.vos Engine/RepAbs.vos Base/NIter.vos
+Engine/RepRefineLegal.vo Engine/RepRefineLegal.glob Engine/RepRefineLegal.v.beautified Engine/RepRefineLegal.required_vo: Engine/RepRefineLegal.v Engine/PositionRep.vo Engine/EncodingProofs.vo Engine/RepProofs.vo Engine/RepRoundTrip.vo Engine/RepRoundTripNormal.vo Engine/RepAbs.vo Engine/RepRefine.vo Base/NIter.vo Base/Geom.vo Base/FileRank.vo
+Engine/RepRefineLegal.vio: Engine/RepRefineLegal.v Engine/PositionRep.vio Engine/EncodingProofs.vio Engine/RepProofs.vio Engine/RepRoundTrip.vio Engine/RepRoundTripNormal.vio Engine/RepAbs.vio Engine/RepRefine.vio Base/NIter.vio Base/Geom.vio Base/FileRank.vio
+Engine/RepRefineLegal.vos Engine/RepRefineLegal.vok Engine/RepRefineLegal.required_vos: Engine/RepRefineLegal.v Engine/PositionRep.vos Engine/EncodingProofs.vos Engine/RepProofs.vos Engine/RepRoundTrip.vos Engine/RepRoundTripNormal.vos Engine/RepAbs.vos Engine/RepRefine.vos Base/NIter.vos Base/Geom.vos Base/FileRank.vos
 Engine/RepRoundTrip.vo Engine/RepRoundTrip.glob Engine/RepRoundTrip.v.beautified Engine/RepRoundTrip.required_vo: Engine/RepRoundTrip.v Engine/PositionRep.vo Engine/EncodingProofs.vo Engine/RepProofs.vo
 Engine/RepRoundTrip.vio: Engine/RepRoundTrip.v Engine/PositionRep.vio Engine/EncodingProofs.vio Engine/RepProofs.vio
 Engine/RepRoundTrip.vos Engine/RepRoundTrip.vok Engine/RepRoundTrip.required_vos: Engine/RepRoundTrip.v Engine/PositionRep.vos Engine/EncodingProofs.vos Engine/RepProofs.vos
+Engine/RepRoundTripLegal.vo Engine/RepRoundTripLegal.glob Engine/RepRoundTripLegal.v.beautified Engine/RepRoundTripLegal.required_vo: Engine/RepRoundTripLegal.v Engine/PositionRep.vo Engine/EncodingProofs.vo Engine/RepProofs.vo Engine/RepRoundTrip.vo Engine/RepRoundTripNormal.vo Engine/RepAbs.vo Engine/RepRefine.vo Engine/RepRefineLegal.vo
+Engine/RepRoundTripLegal.vio: Engine/RepRoundTripLegal.v Engine/PositionRep.vio Engine/EncodingProofs.vio Engine/RepProofs.vio Engine/RepRoundTrip.vio Engine/RepRoundTripNormal.vio Engine/RepAbs.vio Engine/RepRefine.vio Engine/RepRefineLegal.vio
+Engine/RepRoundTripLegal.vos Engine/RepRoundTripLegal.vok Engine/RepRoundTripLegal.required_vos: Engine/RepRoundTripLegal.v Engine/PositionRep.vos Engine/EncodingProofs.vos Engine/RepProofs.vos Engine/RepRoundTrip.vos Engine/RepRoundTripNormal.vos Engine/RepAbs.vos Engine/RepRefine.vos Engine/RepRefineLegal.vos
 Engine/RepRoundTripNormal.vo Engine/RepRoundTripNormal.glob Engine/RepRoundTripNormal.v.beautified Engine/RepRoundTripNormal.required_vo: Engine/RepRoundTripNormal.v Engine/PositionRep.vo Engine/EncodingProofs.vo Engine/RepProofs.vo Engine/RepRoundTrip.vo
 Engine/RepRoundTripNormal.vio: Engine/RepRoundTripNormal.v Engine/PositionRep.vio Engine/EncodingProofs.vio Engine/RepProofs.vio Engine/RepRoundTrip.vio
 Engine/RepRoundTripNormal.vos Engine/RepRoundTripNormal.vok Engine/RepRoundTripNormal.required_vos: Engine/RepRoundTripNormal.v Engine/PositionRep.vos Engine/EncodingProofs.vos Engine/RepProofs.vos Engine/RepRoundTrip.vos
@@ -208,12 +217,12 @@ Props/C12Tables.vos Props/C12Tables.vok Props/C12Tables.required_vos: Props/C12T
 Props/Properties_C01.vo Props/Properties_C01.glob Props/Properties_C01.v.beautified Props/Properties_C01.required_vo: Props/Properties_C01.v Chess/Rules.vo Chess/RulesFacts.vo
 Props/Properties_C01.vio: Props/Properties_C01.v Chess/Rules.vio Chess/RulesFacts.vio
 Props/Properties_C01.vos Props/Properties_C01.vok Props/Properties_C01.required_vos: Props/Properties_C01.v Chess/Rules.vos Chess/RulesFacts.vos
-Props/Properties_C02.vo Props/Properties_C02.glob Props/Properties_C02.v.beautified Props/Properties_C02.required_vo: Props/Properties_C02.v Chess/Rules.vo Engine/PositionRep.vo Engine/RepAbs.vo
-Props/Properties_C02.vio: Props/Properties_C02.v Chess/Rules.vio Engine/PositionRep.vio Engine/RepAbs.vio
-Props/Properties_C02.vos Props/Properties_C02.vok Props/Properties_C02.required_vos: Props/Properties_C02.v Chess/Rules.vos Engine/PositionRep.vos Engine/RepAbs.vos
-Props/Properties_C03.vo Props/Properties_C03.glob Props/Properties_C03.v.beautified Props/Properties_C03.required_vo: Props/Properties_C03.v Engine/PositionRep.vo Engine/RepAbs.vo Engine/RepProofs.vo Engine/RepRoundTrip.vo Engine/RepRoundTripNormal.vo Engine/Encoding.vo
-Props/Properties_C03.vio: Props/Properties_C03.v Engine/PositionRep.vio Engine/RepAbs.vio Engine/RepProofs.vio Engine/RepRoundTrip.vio Engine/RepRoundTripNormal.vio Engine/Encoding.vio
-Props/Properties_C03.vos Props/Properties_C03.vok Props/Properties_C03.required_vos: Props/Properties_C03.v Engine/PositionRep.vos Engine/RepAbs.vos Engine/RepProofs.vos Engine/RepRoundTrip.vos Engine/RepRoundTripNormal.vos Engine/Encoding.vos
+Props/Properties_C02.vo Props/Properties_C02.glob Props/Properties_C02.v.beautified Props/Properties_C02.required_vo: Props/Properties_C02.v Chess/Rules.vo Engine/PositionRep.vo Engine/RepAbs.vo Engine/RepRefine.vo Engine/RepRefineLegal.vo Engine/RepRoundTripNormal.vo Base/NIter.vo
+Props/Properties_C02.vio: Props/Properties_C02.v Chess/Rules.vio Engine/PositionRep.vio Engine/RepAbs.vio Engine/RepRefine.vio Engine/RepRefineLegal.vio Engine/RepRoundTripNormal.vio Base/NIter.vio
+Props/Properties_C02.vos Props/Properties_C02.vok Props/Properties_C02.required_vos: Props/Properties_C02.v Chess/Rules.vos Engine/PositionRep.vos Engine/RepAbs.vos Engine/RepRefine.vos Engine/RepRefineLegal.vos Engine/RepRoundTripNormal.vos Base/NIter.vos
+Props/Properties_C03.vo Props/Properties_C03.glob Props/Properties_C03.v.beautified Props/Properties_C03.required_vo: Props/Properties_C03.v Engine/PositionRep.vo Engine/RepAbs.vo Engine/RepProofs.vo Engine/RepRoundTrip.vo Engine/RepRoundTripNormal.vo Engine/Encoding.vo Engine/RepRefine.vo Engine/RepRefineLegal.vo Engine/RepRoundTripLegal.vo Chess/Rules.vo
+Props/Properties_C03.vio: Props/Properties_C03.v Engine/PositionRep.vio Engine/RepAbs.vio Engine/RepProofs.vio Engine/RepRoundTrip.vio Engine/RepRoundTripNormal.vio Engine/Encoding.vio Engine/RepRefine.vio Engine/RepRefineLegal.vio Engine/RepRoundTripLegal.vio Chess/Rules.vio
+Props/Properties_C03.vos Props/Properties_C03.vok Props/Properties_C03.required_vos: Props/Properties_C03.v Engine/PositionRep.vos Engine/RepAbs.vos Engine/RepProofs.vos Engine/RepRoundTrip.vos Engine/RepRoundTripNormal.vos Engine/Encoding.vos Engine/RepRefine.vos Engine/RepRefineLegal.vos Engine/RepRoundTripLegal.vos Chess/Rules.vos
 Props/Properties_C04.vo Props/Properties_C04.glob Props/Properties_C04.v.beautified Props/Properties_C04.required_vo: Props/Properties_C04.v Engine/PositionRep.vo Engine/RepAbs.vo Engine/RepProofs.vo
 Props/Properties_C04.vio: Props/Properties_C04.v Engine/PositionRep.vio Engine/RepAbs.vio Engine/RepProofs.vio
 Props/Properties_C04.vos Props/Properties_C04.vok Props/Properties_C04.required_vos: Props/Properties_C04.v Engine/PositionRep.vos Engine/RepAbs.vos Engine/RepProofs.vos
